@@ -2,12 +2,16 @@ use std::process::Command;
 fn main() {
     let out = std::env::var("OUT_DIR").unwrap();
     let seed = std::env::var("BVH_GEN_SEED").unwrap_or_else(|_| "1".into());
-    let nq = std::env::var("BVH_GEN_NQ").unwrap_or_else(|_| "110".into());
+    let nq = std::env::var("BVH_GEN_NQ").unwrap_or_else(|_| "80".into());
     println!("cargo:rerun-if-env-changed=BVH_GEN_SEED");
     println!("cargo:rerun-if-env-changed=BVH_GEN_NQ");
     println!("cargo:rerun-if-changed=../gen/gen_rig.py");
     println!("cargo:rerun-if-changed=build.rs");
+    // the 9-component registry is expensive to monomorphize: smaller parallel / system family
+    let npar = std::env::var("BVH_GEN_NPAR").unwrap_or_else(|_| "12".into());
+    println!("cargo:rerun-if-env-changed=BVH_GEN_NPAR");
     let st = Command::new("python3")
+        .env("BVH_GEN_NPAR", npar)
         .args(["../gen/gen_rig.py", SPEC, &seed, &nq, &format!("{out}/rig.rs")])
         .status()
         .expect("run gen_rig.py");
